@@ -126,19 +126,19 @@ PROPS['C10'] = Prop(
 
 _RM = '%s on %s: listeners L0, W (wrapped), L2; %d top-level triggers%s; W and L0 may re-dispatch their own event (nested trigger budget %d); helper object destroyed before the first trigger on one branch; %s'
 def _rm(name, tk, rk, tt, nb, tgt, **kw):
-    what = ['CounterRemover', 'ConditionalRemover (condition takes the arguments)', 'ConditionalRemover (condition takes no arguments)', 'ConditionalRemover (condition callable with and without the arguments)'][rk]
+    what = ['CounterRemover', 'ConditionalRemover (condition takes the arguments)', 'ConditionalRemover (condition takes no arguments)', 'ConditionalRemover (condition callable with and without the arguments)', 'ConditionalRemover (condition object with its own state: every evaluation on the one stored object)'][rk]
     sym = 'trigger count n is a fully symbolic 32-bit int' if rk == 0 else 'condition outcome is a symbolic bit per evaluation'
     oc = (4,) if rk == 0 else (1, 2, 3)
     if tk != 2: oc = oc + (6,)
     return Run(name, 'removers.cpp', {'TK': tk, 'RK': rk, 'TT': tt, 'NB': nb}, covers=7, optional_covers=oc, bounds=_RM % (what, tgt, tt, ' (alternately direct and enqueue+process)' if tk == 2 else '', nb, sym), **kw)
 PROPS['C16'] = Prop(
     quick=[_rm('counter_cl', 0, 0, 4, 1, 'CallbackList'), _rm('counter_disp', 1, 0, 4, 1, 'EventDispatcher'), _rm('counter_queue', 2, 0, 4, 1, 'EventQueue'),
-           _rm('cond_args_cl', 0, 1, 4, 1, 'CallbackList'), _rm('cond_noargs_disp', 1, 2, 4, 1, 'EventDispatcher'), _rm('cond_args_queue', 2, 1, 3, 1, 'EventQueue'), _rm('cond_both_disp', 1, 3, 3, 1, 'EventDispatcher'),
+           _rm('cond_args_cl', 0, 1, 4, 1, 'CallbackList'), _rm('cond_noargs_disp', 1, 2, 4, 1, 'EventDispatcher'), _rm('cond_args_queue', 2, 1, 3, 1, 'EventQueue'), _rm('cond_both_disp', 1, 3, 3, 1, 'EventDispatcher'), _rm('cond_state_disp', 1, 4, 3, 1, 'EventDispatcher'), _rm('cond_state_cl', 0, 4, 3, 1, 'CallbackList'),
            _rm('counter_hdisp', 3, 0, 3, 1, 'HeterEventDispatcher'),
            BmcRun('counter_wrapper_cbmc', 'counter_kernel.cpp', 'counter_laws.c', unwind=7, bounds='E-bmc cross-check: the real CounterRemover wrapper operator() with a stub dispatcher, translated IR->C and decided by CBMC for EVERY 32-bit trigger count and 0..5 triggers; every nsw operation asserted (signed overflow); unwind 7 with unwinding assertions')],
     thorough=[_rm('counter_cl_t', 0, 0, 5, 2, 'CallbackList', budget_s=1700), _rm('counter_disp_t', 1, 0, 5, 2, 'EventDispatcher', budget_s=1700), _rm('counter_queue_t', 2, 0, 5, 2, 'EventQueue', budget_s=1700),
               _rm('cond_args_cl_t', 0, 1, 5, 2, 'CallbackList', budget_s=1700), _rm('cond_noargs_cl_t', 0, 2, 5, 2, 'CallbackList', budget_s=1700),
-              _rm('cond_noargs_disp_t', 1, 2, 5, 2, 'EventDispatcher', budget_s=1700), _rm('cond_args_queue_t', 2, 1, 5, 2, 'EventQueue', budget_s=1700), _rm('cond_both_cl_t', 0, 3, 4, 2, 'CallbackList', budget_s=1700), _rm('cond_both_queue_t', 2, 3, 4, 2, 'EventQueue', budget_s=1700),
+              _rm('cond_noargs_disp_t', 1, 2, 5, 2, 'EventDispatcher', budget_s=1700), _rm('cond_args_queue_t', 2, 1, 5, 2, 'EventQueue', budget_s=1700), _rm('cond_both_cl_t', 0, 3, 4, 2, 'CallbackList', budget_s=1700), _rm('cond_state_disp_t', 1, 4, 4, 2, 'EventDispatcher', budget_s=1700), _rm('cond_state_cl_t', 0, 4, 4, 2, 'CallbackList', budget_s=1700), _rm('cond_state_queue_t', 2, 4, 4, 2, 'EventQueue', budget_s=1700), _rm('cond_state_hdisp_t', 3, 4, 4, 1, 'HeterEventDispatcher', budget_s=1700), _rm('cond_both_queue_t', 2, 3, 4, 2, 'EventQueue', budget_s=1700),
               _rm('counter_hdisp_t', 3, 0, 4, 2, 'HeterEventDispatcher', budget_s=1700), _rm('cond_args_hdisp_t', 3, 1, 4, 2, 'HeterEventDispatcher', budget_s=1700),
               BmcRun('counter_wrapper_cbmc', 'counter_kernel.cpp', 'counter_laws.c', unwind=7, bounds='E-bmc cross-check as in the quick tier')],
     outside='more than TT top-level triggers (TT+NB triggers separate n<=1, 2, ..., TT+NB, larger); several wrapped listeners at once; threads',
@@ -197,12 +197,16 @@ PROPS['C04'] = Prop(
 
 _HT = ('%s with prototypes void(), void(uint32_t), void(const Big&), void(Trk, uint32_t) (Big: 48 bytes owning a heap cell; Trk: ledger-counted); one callback per prototype initially; '
        'K=%d steps from append/prepend callback of prototype p, remove through a handle, invoke/dispatch with the argument list of prototype p%s; payloads symbolic')
+_VC = 'value categories: prototypes void(Big&), void(Big), void(uint32_t, const Big&) on %s; invoked with a modifiable lvalue / const lvalue / temporary / xvalue / two arguments; symbolic payload; exactly the callbacks of the first prototype callable with the argument types run, in order, once each, arguments intact'
+_VCR = [Run('heter_valcat_cl', 'heter_valcat.cpp', {'OBJ': 0}, covers=5, bounds=_VC % 'HeterCallbackList'), Run('heter_valcat_disp', 'heter_valcat.cpp', {'OBJ': 1}, covers=5, bounds=_VC % 'HeterEventDispatcher'),
+        Run('heter_valcat_queue', 'heter_valcat.cpp', {'OBJ': 2}, covers=5, bounds=_VC % 'HeterEventQueue::dispatch'),
+        Run('heter_valcat_enqueue', 'heter_valcat.cpp', {'OBJ': 2, 'VIAQ': 1}, covers=5, optional_covers=(0, 1, 2, 3, 4), bounds=_VC % 'HeterEventQueue, enqueue + process (targeted configuration of known finding KF-C14-1: the modifiable-lvalue case)')]
 PROPS['C14'] = Prop(
     quick=[Run('heter_queue_k2', 'heter.cpp', {'OBJ': 2, 'KK': 2}, covers=9, optional_covers=(1, 3), bounds=_HT % ('HeterEventQueue', 2, ', insert before a handle of any prototype, enqueue of prototype p (also with a convertible argument type), process, processOne, processIf with a predicate callable with exactly one prototype or with all of them (verdict = function of the symbolic payload), one re-entrant enqueue, final drain')),
            Run('heter_queue_qops_k3', 'heter.cpp', {'OBJ': 2, 'KK': 3, 'QOPS_ONLY': None}, covers=9, optional_covers=(0, 6, 7), bounds=_HT % ('HeterEventQueue', 3, '; this run draws only queue operations: enqueue / process / processOne / processIf')),
            Run('heter_cl_k2', 'heter.cpp', {'OBJ': 0, 'KK': 2}, covers=8, optional_covers=(1, 2, 3, 4, 5), bounds=_HT % ('HeterCallbackList', 2, ', insert before a handle of any prototype')),
-           Run('heter_disp_k2', 'heter.cpp', {'OBJ': 1, 'KK': 2}, covers=8, optional_covers=(1, 2, 3, 4, 5), bounds=_HT % ('HeterEventDispatcher', 2, ', insert before a handle of any prototype'))],
-    thorough=[Run('heter_queue_k3', 'heter.cpp', {'OBJ': 2, 'KK': 3}, covers=9, budget_s=1700, bounds=_HT % ('HeterEventQueue', 3, ', insert, enqueue, process, processOne, processIf')),
+           Run('heter_disp_k2', 'heter.cpp', {'OBJ': 1, 'KK': 2}, covers=8, optional_covers=(1, 2, 3, 4, 5), bounds=_HT % ('HeterEventDispatcher', 2, ', insert before a handle of any prototype'))] + _VCR,
+    thorough=_VCR + [Run('heter_queue_k3', 'heter.cpp', {'OBJ': 2, 'KK': 3}, covers=9, budget_s=1700, bounds=_HT % ('HeterEventQueue', 3, ', insert, enqueue, process, processOne, processIf')),
               Run('heter_queue_qops_k4', 'heter.cpp', {'OBJ': 2, 'KK': 4, 'QOPS_ONLY': None}, covers=9, optional_covers=(0, 6, 7), budget_s=1700, bounds=_HT % ('HeterEventQueue', 4, '; queue operations only')),
               Run('heter_cl_k3', 'heter.cpp', {'OBJ': 0, 'KK': 3}, covers=8, optional_covers=(1, 2, 3, 4, 5), budget_s=1700, bounds=_HT % ('HeterCallbackList', 3, ', insert')),
               Run('heter_disp_k3', 'heter.cpp', {'OBJ': 1, 'KK': 3}, covers=8, optional_covers=(1, 2, 3, 4, 5), budget_s=1700, bounds=_HT % ('HeterEventDispatcher', 3, ', insert'))],
